@@ -53,6 +53,8 @@ type Config struct {
 	// MockSafe restricts response messages to the shapes the mock generator supports
 	// (other shapes live in probe worlds).
 	MockSafe bool
+	// TSSafe avoids shapes the TS server generator is known not to load (probe worlds only).
+	TSSafe bool
 }
 
 // Feature names.
@@ -581,6 +583,9 @@ func (x *g) method(s *spec.Service, name string, idx int, usedRoutes map[string]
 
 	// query
 	wantQuery := x.has(FQuery) && (bodyless || x.has(FQueryOnBody))
+	if x.cfg.TSSafe && bodyless && nVars > 0 {
+		wantQuery = false // path variable + query parameter on a body-less route: TS server does not load
+	}
 	if x.has(RPathQueryTS) || x.has(RRepeatedQuery) || x.has(ROptionalQuery) {
 		wantQuery = true
 		if !bodyless {
